@@ -211,6 +211,10 @@ func fromCtyNumberFloat(bf *big.Float, target reflect.Value, path cty.Path) erro
 				return path.NewErrorf("value must be between %f and %f inclusive", -math.MaxFloat64, math.MaxFloat64)
 			}
 		}
+		if target.Kind() == reflect.Float32 && !math.IsInf(fv, 0) && math.Abs(fv) > math.MaxFloat32 {
+			// Likewise for the narrower type: SetFloat would store an infinity.
+			return path.NewErrorf("value must be between %f and %f inclusive", -math.MaxFloat32, math.MaxFloat32)
+		}
 		target.SetFloat(fv)
 		return nil
 	default:
